@@ -182,6 +182,8 @@ def generate_registry(rf='tape'):
                          u='0 <= %s and %s < %s and (%s * %s - 1) %% %s == 0' % (iv(ru), iv(ru), iv(rq), iv(rp), iv(ru), iv(rq)),
                          crt='%s == %s %% (%s - 1) and %s == %s %% (%s - 1)' % (iv('result._dp'), iv(rd), iv(rp), iv('result._dq'), iv(rd), iv(rq)),
                          reads='%s.g_pos >= old(%s.g_pos)' % (TPR, TPR), system_untouched=sys_untouched(TPR)),
+                     # proof steps over the locals at the exit (assert_at style): what the loop guard alone gives on leaving the loop
+                     lemmas={'exit': {'guard_size': 'bitlen(ival(n)) == bits', 'guard_d': 'ival(d) >= pow2(bits // 2)'}},
                      loops={0: {'peel': 1, 'havoc': [TPR + '.g_pos'], 'forget': True,
                                 'types': {'p': OI, 'q': OI, 'n': OI, 'd': OI, 'lcm': OI, 'min_p': OI, 'min_q': OI, 'min_distance': OI,
                                           'size_p': 'int', 'size_q': 'int'},
